@@ -188,7 +188,10 @@ def concretize(hist, idx, seed):
             "wn_stdout_file": rng.random() < 0.2,
             "backlog": rng.choice([None, 16, 128]),
             # circusd started with standard input closed: the first managed socket is then descriptor 0
-            "stdin_closed": (idx % 4 == 1)}
+            "stdin_closed": (idx % 4 == 1),
+            # (not with so_reuseport: Process._get_sockets_fds looks for the reference in cmd, in lower case, to decide
+            #  whether a worker gets its own socket; those sockets are excepted by the statement)
+            "refs_in_args": (idx % 3 == 1) and not rp, "refs_upper": (idx % 5 == 2) and not rp}
 
 
 def make_ini(d, hist, conc):
@@ -204,10 +207,16 @@ def make_ini(d, hist, conc):
     lines += ["", "[socket:unix]", "path = %s/m.sock" % d]
     if conc["unix_replace"]:
         lines.append("replace = True")
-    lines += ["", "[watcher:ws]",
-              "cmd = " + livelib.worker_cmd(rec, "ws", "--wid", "$(circus.wid)", "--fd", "inet=$(circus.sockets.inet)",
-                                            "--fd", "unix=$(circus.sockets.unix)"),
-              "use_sockets = True", "numprocesses = %d" % NP0["ws"], "graceful_timeout = 2", "copy_env = True"]
+    # where and how the command line refers to the sockets: in cmd or in args, in lower or upper case
+    i_ref = "$(CIRCUS.SOCKETS.INET)" if conc.get("refs_upper") else "$(circus.sockets.inet)"
+    u_ref = "$(circus.sockets.UNIX)" if conc.get("refs_upper") else "$(circus.sockets.unix)"
+    fdargs = ["--fd", "inet=" + i_ref, "--fd", "unix=" + u_ref]
+    if conc.get("refs_in_args"):
+        lines += ["", "[watcher:ws]", "cmd = " + livelib.worker_cmd(rec, "ws", "--wid", "$(circus.wid)"),
+                  "args = " + " ".join(fdargs)]
+    else:
+        lines += ["", "[watcher:ws]", "cmd = " + livelib.worker_cmd(rec, "ws", "--wid", "$(circus.wid)", *fdargs)]
+    lines += ["use_sockets = True", "numprocesses = %d" % NP0["ws"], "graceful_timeout = 2", "copy_env = True"]
     if conc["ws_stdout_file"]:
         lines += ["stdout_stream.class = FileStream", "stdout_stream.filename = %s/ws.out" % d]
     for w in hist["watchers"]:
